@@ -37,20 +37,6 @@ const (
 	nsFS2  = "C03-S2"  // mirror commits round r while its state machine already acts in round r+1
 )
 
-// nsFutureHeightIDs are the findings a mirror running ahead of its state
-// machine leads to; the "nothing above the state machine's height" rule is
-// active while any of them is listed.
-var nsFutureHeightIDs = []string{nsFS1, nsFA17, nsFA7, nsFA15}
-
-func nsFutureHeightRule() string {
-	for _, id := range nsFutureHeightIDs {
-		if nsEx(id) {
-			return id
-		}
-	}
-	return ""
-}
-
 type nsMsg struct {
 	id     int
 	from   int // node index, -1 = Byzantine
@@ -323,115 +309,139 @@ func nsExcl(ids ...string) bool {
 }
 
 func (x *nsExec) admitVote(n *nsNode, p nsPos, kind int, h uint64, r uint32, target string, sig gcrypto.SparseSignature) string {
-	if h > p.SH {
-		return nsFutureHeightRule()
-	}
 	if p.CH > 0 && h == p.CH {
 		if r > p.CR && nsEx(nsFA3) {
 			return nsFA3
 		}
 		return ""
 	}
-	if h < p.VH {
-		return "" // stale
+	if h != p.VH {
+		return "" // stale, or beyond the mirror's voting height (stored as a future vote only)
 	}
-	if h == p.VH && r == p.VR && p.SH == p.VH && p.SR > p.VR && kind == nsKindPrecommit && target != "" && nsEx(nsFS2) {
-		// The machine is ahead of its mirror: the mirror must not commit this round.
-		_, _, pcc := x.roundState(n, h, r)
-		pows := x.w.powersFor(h)
-		pc := x.tally(pcc, pows)
+	if r != p.VR && r != p.VR+1 {
+		return "" // stale round, or a future round (stored only)
+	}
+	// The vote lands in the voting or next-round view: the state after merging it decides.
+	_, pvc, pcc := x.roundState(n, h, r)
+	pows := x.w.powersFor(h)
+	avail := nsSum(pows)
+	maj, min := nsMaj(avail), nsMin(avail)
+	pv, pc := x.tally(pvc, pows), x.tally(pcc, pows)
+	if kind == nsKindPrevote {
+		pv.add(target, sig.KeyID, pows)
+	} else {
 		pc.add(target, sig.KeyID, pows)
-		if pc.byHash[target] >= nsMaj(nsSum(pows)) {
+	}
+	step := nsEntryStep(avail, pv, pc)
+	nilDone := pc.byHash[""] >= maj || (pc.total == avail && pc.best < maj) // the round ends without a commit
+	// lagging: the machine is still on the committing height (commit wait); its next
+	// entrance is round 0 of the mirror's voting height.
+	lagging := p.SH < p.VH
+	if r == p.VR {
+		if lagging {
+			if (step == "pvDelay" || step == "pcDelay") && nsEx(nsFA15) {
+				return nsFA15 // the machine would enter a round that is already in a delay situation
+			}
+			if kind == nsKindPrecommit && nilDone && nsEx(nsFA7) {
+				return nsFA7 // the mirror would leave the round the machine has yet to enter
+			}
+			if kind == nsKindPrecommit && target != "" && pc.byHash[target] >= maj && nsEx(nsFA17) {
+				return nsFA17 // the mirror would commit a second height ahead of its machine
+			}
+		}
+		if !lagging && p.SR > p.VR && kind == nsKindPrecommit && target != "" && pc.byHash[target] >= maj && nsEx(nsFS2) {
 			return nsFS2
 		}
+		return ""
 	}
-	if h == p.VH && r == p.VR+1 {
-		// Next-round view: the state after merging this signature decides.
-		_, pvc, pcc := x.roundState(n, h, r)
-		pows := x.w.powersFor(h)
-		pv, pc := x.tally(pvc, pows), x.tally(pcc, pows)
-		if kind == nsKindPrevote {
-			pv.add(target, sig.KeyID, pows)
-		} else {
-			pc.add(target, sig.KeyID, pows)
+	// r == p.VR+1
+	if lagging {
+		if (pv.total >= min || pc.total >= min) && nsEx(nsFA7) {
+			return nsFA7 // the mirror would jump to round 1 before the machine entered round 0
 		}
-		switch nsEntryStep(nsSum(pows), pv, pc) {
-		case "commit":
-			if nsEx(nsFA5) {
-				return nsFA5
-			}
-		case "pcDelay", "pvDelay":
-			if nsEx(nsFA15) {
-				return nsFA15
-			}
+		return ""
+	}
+	switch step {
+	case "commit":
+		if nsEx(nsFA5) {
+			return nsFA5
+		}
+		if pc.byHash[""] >= maj && p.SR <= p.VR && nsEx(nsFA7) {
+			// The mirror jumps into this round and, finding it nil-committed, advances again
+			// in the same step; the machine follows the jump by one round only.
+			return nsFA7
+		}
+	case "pcDelay", "pvDelay":
+		if nsEx(nsFA15) {
+			return nsFA15
 		}
 	}
 	return ""
 }
 
-// admitPH returns the finding id that forbids the delivery, or "" and the
-// precommit parts that must be offered first (split of the aggregate).
+// admitPH returns the finding id that forbids the delivery, or "" and whether
+// the precommits of the header's previous-commit proof must be offered first.
 func (x *nsExec) admitPH(n *nsNode, p nsPos, ph tmconsensus.ProposedHeader) (string, bool) {
 	h, r := ph.Header.Height, ph.Round
-	if h > p.SH {
-		if h == p.VH+1 && nsExcl(nsFA4) {
-			return nsFA4, false
-		}
-		if h == p.VH+1 && p.VH == p.SH && ph.Header.PrevCommitProof.Round == p.VR+1 && nsEx(nsFA5) {
-			// The mirror files the proof's precommits under its next-round view:
-			// a commit proof is a > 2/3 precommit for one target, i.e. the A5 situation.
-			return nsFA5, false
-		}
-		if h == p.VH+1 && p.VH == p.SH {
-			// A4 is repaired: a proposal for the next height may carry the commit of the
-			// voting height (catch-up through the previous-commit proof). The machine is
-			// still live on that height, so this is not "mirror ahead of its machine".
-			x.count("next-height-ph")
-			return "", false
-		}
-		return nsFutureHeightRule(), false
-	}
 	if p.CH > 0 && h == p.CH {
 		if r > p.CR && nsEx(nsFA1) {
 			return nsFA1, false
 		}
 		return "", false
 	}
-	if h < p.VH {
+	if h == p.VH+1 {
+		// Catch-up through the previous-commit proof of a next-height header.
+		if nsEx(nsFA4) {
+			return nsFA4, false
+		}
+		if ph.Header.PrevCommitProof.Round == p.VR+1 && nsEx(nsFA5) {
+			return nsFA5, false
+		}
+		if p.SH < p.VH && nsEx(nsFA17) {
+			return nsFA17, false // would commit a second height ahead of the machine
+		}
+		x.count("next-height-ph")
 		return "", false
 	}
-	if h == p.VH {
-		if r > p.VR+1 {
-			if nsEx(nsFA2) {
-				return nsFA2, false
-			}
-			return "", false
+	if h != p.VH {
+		return "", false // stale or too far in the future: answered without touching a view
+	}
+	if r > p.VR+1 {
+		if nsEx(nsFA2) {
+			return nsFA2, false
 		}
-		if r < p.VR {
-			return "", false
-		}
-		if r == p.VR && p.SH == p.VH && p.SR > p.VR && nsEx(nsFS2) {
-			_, _, pcc := x.roundState(n, h, r)
-			pows := x.w.powersFor(h)
-			pc := x.tally(pcc, pows)
-			if pc.byHash[string(ph.Header.Hash)] >= nsMaj(nsSum(pows)) {
+		return "", false
+	}
+	if r < p.VR {
+		return "", false
+	}
+	if r == p.VR {
+		// A header that arrives after its precommit majority makes the mirror commit.
+		_, _, pcc := x.roundState(n, h, r)
+		pows := x.w.powersFor(h)
+		pc := x.tally(pcc, pows)
+		if pc.byHash[string(ph.Header.Hash)] >= nsMaj(nsSum(pows)) {
+			if p.SH == p.VH && p.SR > p.VR && nsEx(nsFS2) {
 				return nsFS2, false
 			}
+			if p.SH < p.VH && nsEx(nsFA17) {
+				return nsFA17, false
+			}
 		}
-		if h > x.c.H0 && len(ph.Header.PrevCommitProof.Proofs) > 0 {
-			_, _, pcc := x.roundState(n, p.CH, p.CR)
-			missing := false
-			for k := range ph.Header.PrevCommitProof.Proofs {
-				if _, ok := pcc.BlockSignatures[k]; !ok {
-					missing = true
-				}
+	}
+	if h > x.c.H0 && len(ph.Header.PrevCommitProof.Proofs) > 0 && nsEx(nsFA6) {
+		_, _, pcc := x.roundState(n, p.CH, p.CR)
+		missing := false
+		for k := range ph.Header.PrevCommitProof.Proofs {
+			if _, ok := pcc.BlockSignatures[k]; !ok {
+				missing = true
 			}
-			if missing && nsEx(nsFA6) {
-				if ph.Header.PrevCommitProof.Round == p.CR && h-1 == p.CH {
-					return "", true // offer the precommits of the proof first
-				}
-				return nsFA6, false
+		}
+		if missing {
+			if ph.Header.PrevCommitProof.Round == p.CR && h-1 == p.CH {
+				return "", true // offer the precommits of the proof first
 			}
+			return nsFA6, false
 		}
 	}
 	return "", false
@@ -676,7 +686,7 @@ func (x *nsExec) deliver(pe nsPend, force bool) (done bool, progressed bool) {
 // while the position is unchanged).
 func nsPositionOnly(id string) bool {
 	switch id {
-	case nsFA1, nsFA2, nsFA3, nsFA4, nsFA7, nsFA17, nsFS1:
+	case nsFA1, nsFA2, nsFA3, nsFA4:
 		return true
 	}
 	return false
@@ -734,18 +744,54 @@ func (x *nsExec) restartAdmit(n *nsNode) string {
 	}
 	switch {
 	case e.H == vh:
-		if e.R < vr || e.R > vr+1 {
+		// The kernel re-evaluates the stored voting and next-round votes at start-up (they may
+		// include votes that were stored as "future" before the mirror reached this height and
+		// that the live mirror never looked at): simulate that to know the voting round f the
+		// machine's entrance will meet, or that the height gets committed right away.
+		pows := x.w.powersFor(vh)
+		avail := nsSum(pows)
+		maj, min := nsMaj(avail), nsMin(avail)
+		state := func(r uint32) (nilDone, commits, present bool, pv, pc nsTally) {
+			phs, pvc, pcc := x.roundState(n, vh, r)
+			pv, pc = x.tally(pvc, pows), x.tally(pcc, pows)
+			nilDone = pc.byHash[""] >= maj || (pc.total == avail && pc.best < maj)
+			for _, ph := range phs {
+				if pc.byHash[string(ph.Header.Hash)] >= maj {
+					commits = true
+				}
+			}
+			present = pv.total >= min || pc.total >= min
+			return
+		}
+		f, committed := vr, false
+		if nilDone, commits, _, _, _ := state(vr); commits {
+			committed = true
+		} else if nilDone {
+			f = vr + 1
+		} else if nilDone2, commits2, present2, _, _ := state(vr + 1); present2 {
+			f = vr + 1
+			if commits2 {
+				committed = true
+			} else if nilDone2 {
+				f = vr + 2
+			}
+		}
+		if committed {
+			return "" // entrance meets the committing view, a replay, or (repaired) a later round of it
+		}
+		if e.R < f || e.R > f+1 {
 			if nsEx(nsFA7) {
 				return nsFA7
 			}
 			return ""
 		}
-		_, pvc, pcc := x.roundState(n, e.H, e.R)
-		pows := x.w.powersFor(e.H)
-		switch nsEntryStep(nsSum(pows), x.tally(pvc, pows), x.tally(pcc, pows)) {
-		case "pvDelay", "pcDelay":
-			if nsEx(nsFA15) {
-				return nsFA15
+		if e.R == f {
+			_, _, _, pv, pc := state(f)
+			switch nsEntryStep(avail, pv, pc) {
+			case "pvDelay", "pcDelay":
+				if nsEx(nsFA15) {
+					return nsFA15
+				}
 			}
 		}
 	case ch > 0 && e.H == ch:
